@@ -290,3 +290,47 @@ PROPS["C02"] = {
 }
 ENGINES.append({"name": "libFuzzer targets", "path": "/verif/harness/fuzz", "serves_properties": ["C02", "C03"],
                 "kind_free_text": "coverage-guided fuzzing, structure-aware decode of the input, semantic oracle inside the target"})
+
+PROPS["C11"] = {
+    "level": "exploration",
+    "technique": "stateful property-based testing (rapidcheck) + exhaustive value sweeps: every setter against a field-map model, all getters compared after each write",
+    "rule": "cases = (class out of 18 header / payload classes incl. TECMP, prior state from an all-zero / all-ones / pseudo-random image, "
+            "sequence of 1..16 (thorough ..40) in-range writes) and, exhaustively, every in-range value of every field <= 16 bits on the "
+            "three backgrounds with boolean flags set and cleared in both orders; non-trivial when a write on a non-zero background "
+            "changes the value; distinct = distinct serialized cases (an exhaustive sweep case covers up to 65536 writes, counted in "
+            "counters.writes)",
+    "assumptions": COMMON_ASSUMPTIONS + ["the model is initialised from the getters of the prior state; fields viewing the same bytes (flag word / "
+                                         "single flags, interface id / vendor id, CAN id and CRC words, payload type parts) are modelled as views of one cell",
+                                         "in-range = the field's bit width (CAN id 29 bits, CAN CRC 15, CAN-FD CRC 21, SBC 3, LIN id 6, parity 2) or its enumerators"],
+    "level_text": "Model-based search over setter sequences from arbitrary prior states, exhaustive in the value for all fields up to 16 "
+                  "bits: after every write every getter must equal the model (written field = value, everything else unchanged) and the "
+                  "data bytes and length must be untouched.",
+    "level_note": "Trusted: the field table in harness/common/fields.h (bit positions of overlapping views).",
+    "stages": [
+        pbt("exhaustive_values", "pbt_C11", mode="enum", quick={}, thorough={}),
+        pbt("setter_sequences", "pbt_C11", quick={"cases": 5000, "size": 100, "shards": 4},
+            thorough={"cases": 100000, "size": 200, "shards": 16}),
+    ],
+}
+
+PROPS["C12"] = {
+    "level": "exploration",
+    "technique": "property-based testing (rapidcheck) + exhaustive / boundary value sweeps against an external wire-layout table (byte offset, width, bit position, big-endian)",
+    "rule": "cases = (a) API writes of in-range values onto objects with zero / ones / pseudo-random images, raw bytes compared with the "
+            "image the layout table prescribes (exactly the field's bits replaced); (b) hand-laid images read back through every "
+            "getter; (c) default objects: reserved bits zero, header sizes; (d) Packet::getRawCmpHeader / getRawMessageHeader for "
+            "generated packets of every message type; non-trivial when the field is wider than a byte or narrower than its container "
+            "(endianness / masks matter), or a packet raw-header / default-object case; distinct = distinct serialized cases",
+    "assumptions": COMMON_ASSUMPTIONS + ["trusted base: the layout table in harness/common/fields.h and harness/oracle/wire.h, written from the ASAM CMP 1.0 / "
+                                         "TECMP layouts (as in the Wireshark dissectors) and cross-checked against the real captures embedded in the "
+                                         "repository's tests; the standard documents are not available offline",
+                                         "NaN bit patterns of the analog float fields are not compared through float return values"],
+    "level_text": "Generated and swept writes / images for all fields of 16 classes with a raw image: offset, width, bit position, "
+                  "endianness and 'reserved never changed' are one byte-image comparison per write; header sizes equal the standard's.",
+    "level_note": "The table is the trusted base; a disagreement on the unchanged tree is investigated as 'which one matches the standard'.",
+    "stages": [
+        pbt("layout_sweeps", "pbt_C12", mode="enum", quick={}, thorough={}),
+        pbt("generated_writes_and_images", "pbt_C12", quick={"cases": 5000, "size": 100, "shards": 4},
+            thorough={"cases": 100000, "size": 200, "shards": 16}),
+    ],
+}
